@@ -95,13 +95,15 @@ class MultilineComment(Comment):
     def rebuild(self, indent: int = 0, inline: bool = False) -> str:
         """Preserve multiline comment structure for RFC-166 compliance."""
         opening = "/**" if self.doc else "/*"
+        if self.inline:
+            indent = 0
         if "\n" in self.text:
             # Multiline
             result: str
             if self.text.startswith("\n"):
                 result = " " * indent + opening
             else:
-                result = f"{opening} "
+                result = " " * indent + f"{opening} "
             lines = self.text.split("\n")
             result += lines[0]
             extra_indent = 2 if self.inner_indent is None else self.inner_indent
@@ -118,7 +120,7 @@ class MultilineComment(Comment):
             return result
         else:
             # Single line
-            return f"{opening} {self.text} */"
+            return " " * indent + f"{opening} {self.text} */"
 
 
 __all__ = ["Comment", "MultilineComment"]
